@@ -30,20 +30,20 @@ Proof. exact call_returns_head. Qed.
 Theorem C04_verdict_reported : forall (c : hcall) (e : N) (rest : list hitem) (s : hstate), c <> CNowait \/ h_mail_rx s = false -> h_replies s = HErr e :: rest -> exists s' : hstate, hstep c s = Some (RErrItem e, s') /\ h_replies s' = rest.
 Proof. exact verdict_reported. Qed.
 
-(* THE WHOLE SYSTEM, EVERY SCHEDULE (Model/Sys.v): any number of channels, each with its caller and its program of synchronous and nowait calls; the I/O thread draining mailboxes (any prefix at a time), writing (any number of frames at a time) and routing replies; a server that answers the requests of one channel in order and the channels in ANY relative order, at any time. After every finite interleaving of these actions: the I/O thread never found a reply queue full; what channel n's calls have returned is exactly the server's answers to the first so-many synchronous requests channel n issued, in order (the i-th call got the reply to the i-th request - never another channel's, never another call's); a caller that is not blocked has the reply of every synchronous request it issued; a blocked caller is owed exactly one item, the answer to its last request; the reply queue holds at most one item; and what was issued is a prefix of the program *)
-Theorem C04_system_own_reply : forall (answer : N -> N -> N) (bound qcap : N) (progs : N -> list call), 1 <= qcap -> forall sched : list act, let s := yrun answer bound qcap (init_sys progs) sched in y_fail s = false /\ (forall n : N, let c := y_ch s n in yc_results c = map (answer n) (firstn (length (yc_results c)) (syncs (yc_issued c))) /\ (yc_wait c = false -> yc_failed c = false -> yc_results c = map (answer n) (syncs (yc_issued c))) /\ (yc_wait c = true -> exists r : N, syncs (yc_issued c) = firstn (length (yc_results c)) (syncs (yc_issued c)) ++ [r] /\ inflight answer s n = [answer n r]) /\ (yc_failed c = false -> (length (yc_replyq c) <= 1)%nat) /\ yc_issued c ++ yc_prog c = progs n /\ (yc_failed c = true -> y_dead s = true)).
+(* THE WHOLE SYSTEM, EVERY SCHEDULE (Model/Sys.v): any number of channels, each with its caller and its program of synchronous and nowait calls; the I/O thread draining mailboxes (any prefix at a time), writing (any number of frames at a time) and routing replies; a server that answers the requests of one channel in order and the channels in ANY relative order, at any time, and that may CLOSE any channel at any moment (Channel.Close: what it owed on it is dropped, nothing follows on it). After every finite interleaving of these actions: the I/O thread never found a reply queue full nor a frame for a channel that is gone; what channel n's calls have returned is exactly the server's answers to the first so-many synchronous requests channel n issued, in order (the i-th call got the reply to the i-th request - never another channel's, never another call's) - also on a channel the server closed; on a channel the server has not closed, a caller that is not blocked has the reply of every synchronous request it issued and a blocked caller is owed exactly one item, the answer to its last request; a reply queue never holds more than two items (one reply and the verdict of a close); what was issued is a prefix of the program; and a caller is marked failed only after the I/O thread has ended or the server has closed its channel *)
+Theorem C04_system_own_reply : forall (answer : N -> N -> N) (bound qcap : N) (progs : N -> list call), 2 <= qcap -> forall sched : list act, let s := yrun answer bound qcap (init_sys progs) sched in y_fail s = false /\ (forall n : N, let c := y_ch s n in yc_results c = map (answer n) (firstn (length (yc_results c)) (syncs (yc_issued c))) /\ (yc_srv_closed c = false -> yc_wait c = false -> yc_failed c = false -> yc_results c = map (answer n) (syncs (yc_issued c))) /\ (yc_srv_closed c = false -> yc_wait c = true -> exists r : N, syncs (yc_issued c) = firstn (length (yc_results c)) (syncs (yc_issued c)) ++ [r] /\ inflight answer s n = [answer n r]) /\ (length (yc_replyq c) <= 2)%nat /\ yc_issued c ++ yc_prog c = progs n /\ (yc_failed c = true -> y_dead s = true \/ yc_srv_closed c = true)).
 Proof. exact sys_own_reply. Qed.
 
-(* ... in particular the capacity the code gives a reply queue (2, from the compiled crate) is never reached under a compliant server: the hypothesis has_room of C04_routing holds in every reachable state *)
-Theorem C04_system_reply_queue_never_full : forall (answer : N -> N -> N) (bound qcap : N) (progs : N -> list call), 1 <= qcap -> forall sched : list act, y_fail (yrun answer bound qcap (init_sys progs) sched) = false.
+(* ... in particular the capacity the code gives a reply queue (2, from the compiled crate: one reply and one verdict) is never exceeded under a compliant server, even when the server closes the channel while a reply is still queued: the hypothesis has_room of C04_routing holds in every reachable state (hypothesis 2 <= qcap; with qcap = 1 the statement is false - a queued reply followed by the Close's verdict) *)
+Theorem C04_system_reply_queue_never_full : forall (answer : N -> N -> N) (bound qcap : N) (progs : N -> list call), 2 <= qcap -> forall sched : list act, y_fail (yrun answer bound qcap (init_sys progs) sched) = false.
 Proof. exact sys_reply_queue_never_full. Qed.
 
-(* NOBODY WAITS FOR NOTHING: in every reachable state, a blocked caller's one outstanding item is in one of the six stages (reply queue, inbound wire, server, outbound wire, out-buffer, mailbox) and the action that moves it on is enabled: no reachable state is a deadlock *)
-Theorem C04_system_waiting_progress : forall (answer : N -> N -> N) (bound qcap : N) (progs : N -> list call), 1 <= qcap -> forall (sched : list act) (n : N), let s := yrun answer bound qcap (init_sys progs) sched in yc_wait (y_ch s n) = true -> yc_replyq (y_ch s n) <> [] \/ y_inwire s <> [] \/ yc_pend (y_ch s n) <> [] \/ y_outwire s <> [] \/ y_outbuf s <> [] \/ yc_mail (y_ch s n) <> [].
+(* NOBODY WAITS FOR NOTHING: in every reachable state, a blocked caller of a channel the server has not closed has its one outstanding item in one of the six stages (reply queue, inbound wire, server, outbound wire, out-buffer, mailbox) and the action that moves it on is enabled: no reachable state is a deadlock *)
+Theorem C04_system_waiting_progress : forall (answer : N -> N -> N) (bound qcap : N) (progs : N -> list call), 2 <= qcap -> forall (sched : list act) (n : N), let s := yrun answer bound qcap (init_sys progs) sched in yc_srv_closed (y_ch s n) = false -> yc_wait (y_ch s n) = true -> yc_replyq (y_ch s n) <> [] \/ y_inwire s <> [] \/ yc_pend (y_ch s n) <> [] \/ y_outwire s <> [] \/ y_outbuf s <> [] \/ yc_mail (y_ch s n) <> [].
 Proof. exact sys_waiting_progress. Qed.
 
-(* BLOCKS UNTIL THE REPLY ARRIVES - AND IT CAN ALWAYS ARRIVE: from every reachable state of the system in which the I/O thread lives and caller n is blocked there is a continuation (drain n's mailbox, write the out-buffer, let the server read and answer, read the replies - each of which finds room in its queue -, receive) that does not contain the I/O thread's end and after which caller n has returned: the system has no deadlock and no lost wake-up at the level of the protocol (the wake-up discipline underneath is C18_wake_invariant) *)
-Theorem C04_system_never_stuck : forall (answer : N -> N -> N) (bound qcap : N) (progs : N -> list call), 1 <= qcap -> forall (sched : list act) (n : N), let s := yrun answer bound qcap (init_sys progs) sched in y_dead s = false -> yc_wait (y_ch s n) = true -> exists cont : list act, ~ In ADie cont /\ yc_wait (y_ch (yrun answer bound qcap s cont) n) = false.
+(* BLOCKS UNTIL THE REPLY ARRIVES - AND IT CAN ALWAYS ARRIVE: from every reachable state of the system in which the I/O thread lives and caller n is blocked there is a continuation that does not contain the I/O thread's end and after which caller n has returned - if the server has not closed n: drain n's mailbox, write the out-buffer, let the server read and answer, read the replies (each of which, and each Close for another channel, finds room in its queue), receive; if the server has closed n: read what is on the wire, the Close among it (it is never lost: CInv), receive the verdict. The system has no deadlock and no lost wake-up at the level of the protocol (the wake-up discipline underneath is C18_wake_invariant) *)
+Theorem C04_system_never_stuck : forall (answer : N -> N -> N) (bound qcap : N) (progs : N -> list call), 2 <= qcap -> forall (sched : list act) (n : N), let s := yrun answer bound qcap (init_sys progs) sched in y_dead s = false -> yc_wait (y_ch s n) = true -> exists cont : list act, ~ In ADie cont /\ yc_wait (y_ch (yrun answer bound qcap s cont) n) = false.
 Proof. exact sys_never_stuck. Qed.
 
 (* the system's I/O actions ARE steps of the I/O-thread model (which the CoreProbe ties to the real code). ARead: processing a reply-class frame of channel n, with at most one item queued (the system invariant), appends the reply to n's reply queue; every other reply queue, every mailbox, the out-buffer and the phase are unchanged *)
@@ -94,10 +94,10 @@ Check C04_calls_in_order : forall (wants : list N) (s : hstate) (rest : list hit
 Check C04_call_takes_head : forall (c : hcall) (s : hstate) (r : hres) (s' : hstate), hstep c s = Some (r, s') -> h_replies s' = h_replies s \/ (exists it : hitem, h_replies s = it :: h_replies s').
 Check C04_call_returns_head : forall (want : N) (rest : list hitem) (s : hstate), h_mail_rx s = true -> h_replies s = HMethod want :: rest -> hstep (CCall want) s = Some (ROk want, with_replies s rest (h_mail s + 1)).
 Check C04_verdict_reported : forall (c : hcall) (e : N) (rest : list hitem) (s : hstate), c <> CNowait \/ h_mail_rx s = false -> h_replies s = HErr e :: rest -> exists s' : hstate, hstep c s = Some (RErrItem e, s') /\ h_replies s' = rest.
-Check C04_system_own_reply : forall (answer : N -> N -> N) (bound qcap : N) (progs : N -> list call), 1 <= qcap -> forall sched : list act, let s := yrun answer bound qcap (init_sys progs) sched in y_fail s = false /\ (forall n : N, let c := y_ch s n in yc_results c = map (answer n) (firstn (length (yc_results c)) (syncs (yc_issued c))) /\ (yc_wait c = false -> yc_failed c = false -> yc_results c = map (answer n) (syncs (yc_issued c))) /\ (yc_wait c = true -> exists r : N, syncs (yc_issued c) = firstn (length (yc_results c)) (syncs (yc_issued c)) ++ [r] /\ inflight answer s n = [answer n r]) /\ (yc_failed c = false -> (length (yc_replyq c) <= 1)%nat) /\ yc_issued c ++ yc_prog c = progs n /\ (yc_failed c = true -> y_dead s = true)).
-Check C04_system_reply_queue_never_full : forall (answer : N -> N -> N) (bound qcap : N) (progs : N -> list call), 1 <= qcap -> forall sched : list act, y_fail (yrun answer bound qcap (init_sys progs) sched) = false.
-Check C04_system_waiting_progress : forall (answer : N -> N -> N) (bound qcap : N) (progs : N -> list call), 1 <= qcap -> forall (sched : list act) (n : N), let s := yrun answer bound qcap (init_sys progs) sched in yc_wait (y_ch s n) = true -> yc_replyq (y_ch s n) <> [] \/ y_inwire s <> [] \/ yc_pend (y_ch s n) <> [] \/ y_outwire s <> [] \/ y_outbuf s <> [] \/ yc_mail (y_ch s n) <> [].
-Check C04_system_never_stuck : forall (answer : N -> N -> N) (bound qcap : N) (progs : N -> list call), 1 <= qcap -> forall (sched : list act) (n : N), let s := yrun answer bound qcap (init_sys progs) sched in y_dead s = false -> yc_wait (y_ch s n) = true -> exists cont : list act, ~ In ADie cont /\ yc_wait (y_ch (yrun answer bound qcap s cont) n) = false.
+Check C04_system_own_reply : forall (answer : N -> N -> N) (bound qcap : N) (progs : N -> list call), 2 <= qcap -> forall sched : list act, let s := yrun answer bound qcap (init_sys progs) sched in y_fail s = false /\ (forall n : N, let c := y_ch s n in yc_results c = map (answer n) (firstn (length (yc_results c)) (syncs (yc_issued c))) /\ (yc_srv_closed c = false -> yc_wait c = false -> yc_failed c = false -> yc_results c = map (answer n) (syncs (yc_issued c))) /\ (yc_srv_closed c = false -> yc_wait c = true -> exists r : N, syncs (yc_issued c) = firstn (length (yc_results c)) (syncs (yc_issued c)) ++ [r] /\ inflight answer s n = [answer n r]) /\ (length (yc_replyq c) <= 2)%nat /\ yc_issued c ++ yc_prog c = progs n /\ (yc_failed c = true -> y_dead s = true \/ yc_srv_closed c = true)).
+Check C04_system_reply_queue_never_full : forall (answer : N -> N -> N) (bound qcap : N) (progs : N -> list call), 2 <= qcap -> forall sched : list act, y_fail (yrun answer bound qcap (init_sys progs) sched) = false.
+Check C04_system_waiting_progress : forall (answer : N -> N -> N) (bound qcap : N) (progs : N -> list call), 2 <= qcap -> forall (sched : list act) (n : N), let s := yrun answer bound qcap (init_sys progs) sched in yc_srv_closed (y_ch s n) = false -> yc_wait (y_ch s n) = true -> yc_replyq (y_ch s n) <> [] \/ y_inwire s <> [] \/ yc_pend (y_ch s n) <> [] \/ y_outwire s <> [] \/ y_outbuf s <> [] \/ yc_mail (y_ch s n) <> [].
+Check C04_system_never_stuck : forall (answer : N -> N -> N) (bound qcap : N) (progs : N -> list call), 2 <= qcap -> forall (sched : list act) (n : N), let s := yrun answer bound qcap (init_sys progs) sched in y_dead s = false -> yc_wait (y_ch s n) = true -> exists cont : list act, ~ In ADie cont /\ yc_wait (y_ch (yrun answer bound qcap s cont) n) = false.
 Check C04_io_read_is_ARead : forall (n : N) (m : smethod) (dbg : str) (c : core), steady c -> n <> 0 -> is_reply m -> reply_queue_ok c n -> reply_queues_distinct c -> (length (view_replyq c n) <= 1)%nat -> exists c' : core, process c (FMethod n m, dbg) = (OOk, c') /\ view_replyq c' n = view_replyq c n ++ [reply_item m] /\ (forall k : N, k <> n -> view_replyq c' k = view_replyq c k) /\ (forall k : N, view_mail c' k = view_mail c k) /\ c_out c' = c_out c /\ c_phase c' = c_phase c.
 Check C04_io_drain_is_ADrain : forall (n : N) (bufs : list bytes) (c : core) (s : slot), n <> 0 -> alookup n (c_slots c) = Some s -> s_mail s = map MsgSend bufs -> s_mail_tx s = true -> ob_sealed (c_out c) = false -> exists (c' : core) (k : nat), handle_event c (EvChan n) = (OOk, c', []) /\ view_mail c' n = map MsgSend (skipn k bufs) /\ ob (c_out c') = ob (c_out c) ++ concat (firstn k bufs) /\ (forall j : N, j <> n -> view_mail c' j = view_mail c j) /\ c_qs c' = c_qs c /\ c_phase c' = c_phase c.
 Check C04_io_write_is_AWrite : forall (c : core) (oracle : list wr) (bs : bytes) (wr0 : wres) (ob' : outbuf) (rest : list wr), write_to_stream (c_out c) oracle = (bs, wr0, ob', rest) -> wr0 = WOk -> exists c' : core, handle_event c (EvStream (Some oracle) None) = (OOk, c', bs) /\ bs ++ ob (c_out c') = ob (c_out c) /\ (forall k : N, view_mail c' k = view_mail c k) /\ (forall k : N, view_replyq c' k = view_replyq c k).
